@@ -1532,7 +1532,9 @@ class EBPF(EBPFBase):
             yield
             for tmp, i in save:
                 self.append(Opcode.MOV+Opcode.LONG+Opcode.REG, i, tmp, 0, 0)
-            self.owners -= registers
+            # the restored registers are still in use by their owner
+            self.owners -= registers - oldowners
+            self.owners |= registers & oldowners
 
     @contextmanager
     def get_stack(self, size):
